@@ -251,7 +251,11 @@ def check(ctx):
     loops = [n for n in P.walk_no_nested(pi) if isinstance(n, ast.For)]
     r4.check(all(not is_set_expr(l.iter, attrs, locals_, tm, pi) or body_is_order_insensitive(l.body) for l in loops), 'included namespaces registered in sorted order', tm.rel, pi.lineno,
              'loop iterables in _parse_include: %s' % [P.src(l.iter) for l in loops], detail=[P.src(l.iter) for l in loops])
-    PF = gsa.summarise(ctx, 'transformer', 'Transformer.parse', inline_only=())
+    # the tag-namespace store may sit in a private helper of parse(): inline exactly the helpers that touch self._tag_ns
+    tag_helpers = [mn for mn, mf in py.methods('transformer', 'Transformer').items() if mn != 'parse' and mn.startswith('_') and
+                   any(isinstance(x, ast.Attribute) and x.attr == '_tag_ns' for x in ast.walk(mf)) and
+                   any(P.call_name(c) == 'self.' + mn for c in P.calls_in(py.func('transformer', 'Transformer.parse')))]
+    PF = gsa.summarise(ctx, 'transformer', 'Transformer.parse', inline_only=tag_helpers)
     pf = PF.func
     wr = [e for e in PF.effects if (e.kind == 'store' and re.match(r'^self\._tag_ns\[', e.target) and e.target.endswith(']')) or (e.kind == 'call' and re.match(r'^self\._tag_ns\.(setdefault|update|__setitem__)$', e.target))]
     bad = [e for e in wr if not (e.target.endswith('.setdefault') or (e.kind == 'store' and gsa.impossible(PF, e, [(r' in self\._tag_ns$', True)])))]
